@@ -9,6 +9,7 @@ index is arbitrary — exactly the situation of the recovery theorems of C05. Th
 directory-level statement over all workloads is decided by the loss-image correspondence.
 -/
 import Klev.Proofs.RecoverCheck
+import Klev.Proofs.TornAppend
 import Klev.Gen.Facts
 namespace Klev.C06
 
@@ -26,7 +27,19 @@ theorem synced_prefix_survives_partial (p : Params) (base : Int) (ms : List Msg)
     ∃ f', Seg.recover p ⟨base, render .v2 ms ++ tail, idx⟩ = .ok f' ∧ f'.log = render .v2 ms :=
   ⟨_, Klev.recover_eq p base ms tail idx h hno, rfl⟩
 
+/-- Tail loss inside the unsynced batch: with `ms` fsynced and any `c` bytes of the later batch
+`bs` surviving, recovery keeps all of `ms` (everything below the offset Sync returned) and a
+prefix of `bs`. -/
+theorem synced_survive_batch_loss (p : Params) (base : Int) (ms bs : List Msg)
+    (idx : Option (List UInt8)) (hms : ∀ x ∈ ms, x.Encodable) (hbs : ∀ x ∈ bs, x.Encodable)
+    (c : Nat) (hc : c ≤ (encAll .v2 bs).length) :
+    ∃ k f', Seg.recover p ⟨base, (render .v2 ms ++ encAll .v2 bs).take ((render .v2 ms).length + c), idx⟩ = .ok f' ∧
+      f'.log = render .v2 (ms ++ bs.take k) := by
+  obtain ⟨k, _, _, _, h⟩ := Klev.torn_batch_recovers p base ms bs idx hms hbs c hc
+  exact ⟨k, _, h, rfl⟩
+
 end Klev.C06
 
 #print axioms Klev.C06.source_facts
 #print axioms Klev.C06.synced_prefix_survives_partial
+#print axioms Klev.C06.synced_survive_batch_loss
